@@ -7,6 +7,9 @@ import OpusModel.Gen.CeltFft
   reference implementation touches, loop by loop (a hand transcription of the index expressions, file:line cited; values
   are not modelled).  Data-dependent indices are parameters: the bit-reversal entries and FFT factors come from the
   regenerated tables (`Gen.CeltFft`), `find_best_pitch`'s results are arbitrary integers the caller of the model chooses.
+  `OpusProofs.CeltCallees2*` prove that every hit lies inside the extent contract the bridge assumes for the routine
+  (`Opus.CeltIdx.Call.accs`), inside the mode's tables and inside the local / ALLOCed arrays; the tie (harness/c01_celtcallees2*.c,
+  driver op `decskel ext2 …`) compares the extents of these lists with the extents an instrumented build of the C code records.
 
   C sources (tree at b1d58384): celt/mdct.c:267-371 clt_mdct_backward_c; celt/kiss_fft.c:52-106 kf_bfly2, :108-175
   kf_bfly4, :180-235 kf_bfly3, :239-312 kf_bfly5, :559-609 opus_fft_impl; celt/bands.c:209-280 denormalise_bands;
